@@ -432,6 +432,14 @@ theorem rs_limits (v : Variant) (m : Nat) (p : Bytes) (hm : 0 < m) :
       · intro w hw; simp only [h, if_false] at hw; exact ⟨by omega, by simpa using hw.symm⟩
       · intro e he; simp [h] at he
 
+/-- the same one level down: asyncio `PrefixProtocol.sendString` called directly never writes a frame longer than the
+peer's announced maximum either (it raises) -/
+theorem send_string_limits (m len : Nat) : aioSendStringGuard m len = none ↔ len ≤ m := by
+  simp only [aioSendStringGuard]
+  by_cases h : len > m
+  · simp [h]
+  · simp [h]; omega
+
 /-- the limit in force after a handshake is the one the peer announced -/
 theorem rs_limits_after_handshake (c : Cfg) (o1 o2 o3 o4 : UInt8) (p : Bytes) (m : Nat)
     (h : (hsEval c o1 o2 o3 o4).accepted = true) (hm : (hsEval c o1 o2 o3 o4).maxSend = some m) :
